@@ -8,9 +8,9 @@ from gen import evalgen
 def run_cells(cells, model, impl, hang_s=3.0):
     """returns list of (cell, impl_reply, model_reply, impl_canon, model_canon)"""
     ireq = [c.impl() for c in cells]
-    irep = V.run_batch(impl + ["evalcell"], ireq, hang_s=hang_s, mem_kb=4_000_000, max_failures=40)
+    irep = run_sharded(impl + ["evalcell"], ireq, hang_s=hang_s, mem_kb=4_000_000, max_failures=40)
     mreq = [c.model(r) for c, r in zip(cells, irep)]
-    mrep = V.run_batch([model], mreq, hang_s=60)
+    mrep = run_sharded([model], mreq, hang_s=60)
     out = []
     for c, ir, mr in zip(cells, irep, mrep):
         out.append((c, ir, mr, evalgen.canon(ir, "impl"), evalgen.canon(mr, "model")))
@@ -32,3 +32,22 @@ def classify(icanon):
 
 def implrun():
     return [os.path.join(V.BUILD, "implrun")]
+
+
+def run_sharded(cmd, requests, shards=None, **kw):
+    """vcommon.run_batch over contiguous chunks of the request list in parallel worker processes (one supervising
+    thread each); replies come back in request order, so the result does not depend on the number of shards."""
+    import concurrent.futures
+    n = len(requests)
+    if shards is None:
+        shards = max(1, min(8, (os.cpu_count() or 2) // 2, n // 400 + 1))
+    if shards <= 1 or n < 2:
+        return V.run_batch(cmd, requests, **kw)
+    size = (n + shards - 1) // shards
+    chunks = [requests[i:i + size] for i in range(0, n, size)]
+    with concurrent.futures.ThreadPoolExecutor(max_workers=len(chunks)) as ex:
+        parts = list(ex.map(lambda c: V.run_batch(cmd, c, **kw), chunks))
+    out = []
+    for p in parts:
+        out.extend(p)
+    return out
